@@ -1812,19 +1812,20 @@ def run_foreign_material(grid, ctx, rng, sample):
                 objs.append((otype, add_object(drv, obj_spec(otype, 'Active', 'all', value='other:%s:%s' % (kind, form)), k + 1)))
             store = observe_store(drv)
             ver = rng.choice([(1, 2), (1, 3), (1, 4), (2, 0)])
+            hist = [{'store_setup': [[sp, kk] for sp, kk in drv.setup_log]}]
             for otype, u in objs:
                 for p in sig_params:
                     for sig in (b'\x01' * 64, b'\x01' * 128, b''):
-                        grid.cell(drv, {'op': 'SignatureVerify', 'uid': u, 'params': p, 'data': b'msg', 'signature': sig}, ver, store, desc='foreign.' + kind)
-                    grid.cell(drv, {'op': 'Sign', 'uid': u, 'params': p, 'data': b'msg'}, ver, store, desc='foreign.' + kind)
+                        grid.cell(drv, {'op': 'SignatureVerify', 'uid': u, 'params': p, 'data': b'msg', 'signature': sig}, ver, store, desc='foreign.' + kind, history=hist)
+                    grid.cell(drv, {'op': 'Sign', 'uid': u, 'params': p, 'data': b'msg'}, ver, store, desc='foreign.' + kind, history=hist)
                 for p in enc_params:
-                    grid.cell(drv, {'op': 'Encrypt', 'uid': u, 'params': p, 'iv': None, 'data': b'abc'}, ver, store, desc='foreign.' + kind)
-                    grid.cell(drv, {'op': 'Decrypt', 'uid': u, 'params': p, 'iv': b'\x01' * 16, 'data': b'\x07' * 128}, ver, store, desc='foreign.' + kind)
+                    grid.cell(drv, {'op': 'Encrypt', 'uid': u, 'params': p, 'iv': None, 'data': b'abc'}, ver, store, desc='foreign.' + kind, history=hist)
+                    grid.cell(drv, {'op': 'Decrypt', 'uid': u, 'params': p, 'iv': b'\x01' * 16, 'data': b'\x07' * 128}, ver, store, desc='foreign.' + kind, history=hist)
                 for a in (ALG.HMAC_SHA256, ALG.AES, ALG.RSA):
-                    grid.cell(drv, {'op': 'MAC', 'uid': u, 'params': {'cryptographic_algorithm': a}, 'data': b'data'}, ver, store, desc='foreign.' + kind)
-                grid.cell(drv, {'op': 'Get', 'uid': u}, ver, store, desc='foreign.' + kind)
+                    grid.cell(drv, {'op': 'MAC', 'uid': u, 'params': {'cryptographic_algorithm': a}, 'data': b'data'}, ver, store, desc='foreign.' + kind, history=hist)
+                grid.cell(drv, {'op': 'Get', 'uid': u}, ver, store, desc='foreign.' + kind, history=hist)
                 obs = grid.cell(drv, {'op': 'DeriveKey', 'otype': 'SYMMETRIC_KEY', 'uids': [u], 'method': 'HASH', 'dp': {'params': {'hashing_algorithm': HASH.SHA_256}},
-                                      'ta': DERIVE_TA}, ver, store, desc='foreign.' + kind)
+                                      'ta': DERIVE_TA}, ver, store, desc='foreign.' + kind, history=hist)
                 if obs['status'] == 'SUCCESS':
                     store = observe_store(drv)
     finally:
@@ -2206,8 +2207,8 @@ def run(ctx):
     run_pairs(grid, ctx, ctx.subrng('pairs'), 120 if quick else None)
     run_credentials(grid, ctx, ctx.subrng('credentials'))
     run_old_store(grid, ctx)
-    run_freetext(grid, ctx, ctx.subrng('freetext'), 3 if quick else None)
-    run_foreign_material(grid, ctx, ctx.subrng('foreign'), 1 if quick else None)
+    run_freetext(grid, ctx, ctx.subrng('freetext'), 2 if quick else None)
+    run_foreign_material(grid, ctx, ctx.subrng('foreign'), 0 if quick else None)
     run_histories(grid, ctx, ctx.subrng('histories'), 6 if quick else 60)
     run_random(grid, ctx, ctx.subrng('random'), 12 if quick else 60, 40 if quick else 120)
     ctx.log('cells %d, distinct cases %d, stores %d, GENERAL_FAILURE cells %d' % (grid.cells, len(grid.cases), len(grid.stores), grid.crashes))
@@ -2303,6 +2304,12 @@ def replay(ctx, data):
             drv.attach()
             history = []
             print('  store loaded from harness/%s' % w['history'][0]['store_fixture'])
+        if history and isinstance(history[0], dict) and 'store_setup' in history[0]:
+            # the store is rebuilt from the recorded set-up specs (they say which key material each object holds)
+            old = sorted(o['uid'] for o in w.get('store', []))
+            new = [add_object(drv, spec, k) for spec, k in history[0]['store_setup']]
+            uidmap.update({str(a): b for a, b in zip(old, new)})
+            history = []
         if history is not None:
             # a history cell: redo the recorded steps on a fresh engine (identifiers are issued deterministically)
             for h in history:
@@ -2319,7 +2326,13 @@ def replay(ctx, data):
             uidmap[str(o['uid'])] = add_object(drv, spec, 300 + k)
 
         def remap(u):
-            return uidmap.get(str(u), u)
+            if str(u) in uidmap:
+                return uidmap[str(u)]
+            live = [o['uid'] for o in observe_store(drv)]
+            if w.get('history') and u is not None and str(u).isdigit() and int(u) not in live and live:
+                print('  identifier %s of the recording does not exist after redoing the history: using the newest object %s' % (u, max(live)))
+                return max(live)
+            return u
         if 'uid' in req:
             req['uid'] = remap(req['uid'])
         if 'uids' in req:
